@@ -93,7 +93,7 @@ func runC01(t *testing.T, seed uint64, m *Mask) *Report {
 		routes := make([]world.Routes, nPeers)
 		for i := range peers {
 			rec := &world.Recorder{PName: fmt.Sprintf("rec%d", i), Env: e, Stages: map[string]bool{"PostDisconnect": true}}
-			peers[i] = e.NewPeer(fmt.Sprintf("p%d", i), erpc.PeerConfig{}, rec, &world.Slow{Env: e, P: slowP})
+			peers[i] = e.NewPeer(fmt.Sprintf("p%d", i), erpc.PeerConfig{}, rec, &world.Slow{Env: e, P: slowP, PostLaunch: true, PreLaunch: true})
 			routes[i] = e.RegisterStd(peers[i])
 		}
 		// sessions
